@@ -45,7 +45,7 @@ def cases(tier, seed):
     for i in range(nf):
         out.append({"name": "cos.fuzz/%d" % i, "kind": "fuzz", "n": 25 if tier == "quick" else 60, "idx": i})
     # the very first use of a new executor races with its shutdown (state created on first use)
-    for i in range(16 if tier == "quick" else 400):
+    for i in range(48 if tier == "quick" else 600):
         out.append({"name": "cos.fuzz-fresh/%d" % i, "kind": "fuzz", "n": 150, "idx": i, "fresh": True})
     return out
 
